@@ -415,3 +415,34 @@
 (assert (forall ((t T)) (! (=> (and ((_ is Inner) t) (wfT t))
     (and (= (siz (bal t)) (siz t)) (<= (hgt (bal t)) (hgt t)) (wfT (bal t)) ((_ is Inner) (bal t))))
   :pattern ((bal t)))))
+; dbtree(v): the committed tree of version v as stored (persistence boundary);
+; isProofFor(p, t, k): p is the ICS-23 proof object the library builds for key k in tree t
+(declare-fun dbtree (Int) T)
+;@specfn dbtree : Int -> T
+(declare-fun isProofFor (Int T Real) Bool)
+;@specfn isProofFor : Int T Real -> Bool
+
+; ---- the persisted fast index of a nodeDB (ghost): presence, version last updated, value content, per key order
+;@ghost fihas (Array Int (Array Real Bool))
+;@ghost fiver (Array Int (Array Real Int))
+;@ghost fival (Array Int (Array Real Cnt))
+
+; ---- search-tree order and iteration ranges (C08)
+; mink/maxk: key of the leftmost / rightmost leaf; under bstT these are the least / greatest key
+(define-fun-rec mink ((t T)) Real
+  (ite ((_ is Inner) t) (mink (i_left t)) (ite ((_ is Leaf) t) (c_ord (l_key t)) 0.0)))
+(define-fun-rec maxk ((t T)) Real
+  (ite ((_ is Inner) t) (maxk (i_right t)) (ite ((_ is Leaf) t) (c_ord (l_key t)) 0.0)))
+;@specfn mink : T -> Real
+;@specfn maxk : T -> Real
+; bstT: every inner key separates its subtrees (left keys < key <= right keys)
+(define-fun-rec bstT ((t T)) Bool
+  (ite ((_ is Inner) t)
+       (and (bstT (i_left t)) (bstT (i_right t))
+            (< (maxk (i_left t)) (c_ord (i_key t))) (<= (c_ord (i_key t)) (mink (i_right t))))
+       true))
+;@specfn bstT : T -> Bool
+; inR: k lies in the iteration domain [lo, hi) (hi included when incl); absent bounds are open
+(define-fun inR ((k Real) (hasLo Bool) (lo Real) (hasHi Bool) (hi Real) (incl Bool)) Bool
+  (and (or (not hasLo) (<= lo k)) (or (not hasHi) (< k hi) (and incl (= k hi)))))
+;@specfn inR : Real Bool Real Bool Real Bool -> Bool
